@@ -25,15 +25,42 @@ struct Tr { int64_t T; int o1, o2; };       // change of total offset (seconds) 
 
 static inline int offAt(const TimeZone& tz, int64_t t) { return tz.getUtcOffset((acetime_t) t).toMinutes() * 60; }
 
-static std::vector<Tr> find_transitions(const TimeZone& tz) {
+// The zone's real instant -> offset function: zic's reading of the recorded Zone/Rule lines (the oracle file C01/C02 use),
+// when one is given with --oracle-basic / --oracle-ext; otherwise the library's own function on a private processor.
+struct OSeg { int64_t start; int32_t utoff; int32_t isdst; char abbr[8]; };
+struct OZone { char name[64]; uint32_t first; uint32_t count; };
+struct Oracle {
+  std::vector<OZone> zones; std::vector<OSeg> segs;
+  bool load(const std::string& path) {
+    FILE* f = fopen(path.c_str(), "rb"); if (!f) return false;
+    char magic[4]; uint32_t n;
+    if (fread(magic, 1, 4, f) != 4 || memcmp(magic, "VZIC", 4) || fread(&n, 4, 1, f) != 1) { fclose(f); return false; }
+    zones.resize(n); if (n && fread(zones.data(), sizeof(OZone), n, f) != n) { fclose(f); return false; }
+    OSeg s; while (fread(&s, sizeof s, 1, f) == 1) segs.push_back(s);
+    fclose(f); return true;
+  }
+  const OZone* find(const char* name) const { for (auto& z : zones) if (!strcmp(z.name, name)) return &z; return nullptr; }
+};
+static Oracle ORA_B, ORA_X;
+struct Model {
+  const TimeZone* priv; const Oracle* ora; const OZone* oz;
+  int at(int64_t t) const {
+    if (!oz) return offAt(*priv, t);
+    const OSeg* s = &ora->segs[oz->first]; uint32_t lo = 0, hi = oz->count;     // last segment with start <= t
+    while (hi - lo > 1) { uint32_t m = lo + (hi - lo) / 2; if (s[m].start <= t) lo = m; else hi = m; }
+    return s[lo].utoff;
+  }
+};
+
+static std::vector<Tr> find_transitions(const Model& tz) {
   std::vector<Tr> out;
   const int64_t step = 1800;
-  int prev = offAt(tz, LO); int64_t prevT = LO;
+  int prev = tz.at(LO); int64_t prevT = LO;
   for (int64_t t = LO + step; t < HI; t += step) {
-    int cur = offAt(tz, t);
+    int cur = tz.at(t);
     if (cur != prev) {
       int64_t a = prevT, b = t;
-      while (b - a > 1) { int64_t m = a + (b - a) / 2; if (offAt(tz, m) == prev) a = m; else b = m; }
+      while (b - a > 1) { int64_t m = a + (b - a) / 2; if (tz.at(m) == prev) a = m; else b = m; }
       out.push_back({b, prev, cur});
     }
     prev = cur; prevT = t;
@@ -44,20 +71,20 @@ static std::vector<Tr> find_transitions(const TimeZone& tz) {
 static std::string civstr(const Civil& c) { char b[48]; snprintf(b, sizeof b, "%04lld-%02u-%02uT%02u:%02u:%02u", (long long) c.y, c.mo, c.d, c.h, c.mi, c.s); return b; }
 
 // One local wall time L (seconds since 2000-01-01T00:00:00 *local*).
-static void check_local(const char* zone, bool extended, const TimeZone& tz, const TimeZone& priv, const std::vector<Tr>& trs, int64_t L, const char* klass) {
+static void check_local(const char* zone, bool extended, const TimeZone& tz, const Model& priv, const std::vector<Tr>& trs, int64_t L, const char* klass) {
   Civil c = civil_from_seconds(L);
   ZonedDateTime z = ZonedDateTime::forComponents((int16_t) c.y, (uint8_t) c.mo, (uint8_t) c.d, (uint8_t) c.h, (uint8_t) c.mi, (uint8_t) c.s, tz);
   CNT.add("local.cases");
   // candidate offsets: everything in force within +-2 days of L (UTC-wise)
   std::set<int> offs;
-  offs.insert(offAt(priv, L - 16 * 3600)); offs.insert(offAt(priv, L + 16 * 3600)); offs.insert(offAt(priv, L));
+  offs.insert(priv.at(L - 16 * 3600)); offs.insert(priv.at(L + 16 * 3600)); offs.insert(priv.at(L));
   const Tr* nearest = nullptr; int64_t best = INT64_MAX;
   for (const Tr& t : trs) {
     int64_t d = t.T > L ? t.T - L : L - t.T;
     if (d < 3 * 86400) { offs.insert(t.o1); offs.insert(t.o2); }
   }
   std::vector<int64_t> cands;
-  for (int o : offs) { int64_t u = L - o; if (u >= LO - 86400 && u < HI + 86400 && u > INT32_MIN && u <= INT32_MAX && offAt(priv, u) == o) cands.push_back(u); }
+  for (int o : offs) { int64_t u = L - o; if (u >= LO - 86400 && u < HI + 86400 && u > INT32_MIN && u <= INT32_MAX && priv.at(u) == o) cands.push_back(u); }
   std::sort(cands.begin(), cands.end()); cands.erase(std::unique(cands.begin(), cands.end()), cands.end());
   std::string key, what;
   int64_t r = z.toEpochSeconds();
@@ -67,7 +94,7 @@ static void check_local(const char* zone, bool extended, const TimeZone& tz, con
     // normalised?
     ZonedDateTime n = ZonedDateTime::forEpochSeconds((acetime_t) r, tz);
     if (n.localDateTime() != z.localDateTime() || n.timeOffset() != z.timeOffset()) { key = PROP + ":not-normalised"; what = "rebuilding the result from its own epoch seconds gives different fields/offset"; }
-    else if (z.timeOffset().toMinutes() * 60 != offAt(priv, r)) { key = PROP + ":offset-not-in-force"; what = "result carries an offset that is not in force at its instant"; }
+    else if (z.timeOffset().toMinutes() * 60 != priv.at(r)) { key = PROP + ":offset-not-in-force"; what = "result carries an offset that is not in force at its instant"; }
     else if (cands.size() == 1) {
       CNT.add("local.unique");
       expect = cands[0];
@@ -110,8 +137,9 @@ static void c07_manual(Rng& rng) {
     char nm[48]; snprintf(nm, sizeof nm, "manual(std=%d,dst=%d)", std, dst);
     CNT.add("local.manual_zones");
     int64_t fixedL[] = {LO + 2 * 86400, LO + 2 * 86400 + 1, (HI - 2 * 86400) - 1, 605000000LL - (605000000LL % 60), 605000000LL + 59};
-    for (int64_t L : fixedL) check_local(nm, true, tz, tz, none, L, "manual-zone");
-    for (int k = 0; k < 40; k++) { int64_t L = LO + 2 * 86400 + (int64_t) (rng.next() % (uint64_t) (HI - LO - 4 * 86400)); check_local(nm, true, tz, tz, none, L, "manual-zone"); }
+    Model self = {&tz, nullptr, nullptr};
+    for (int64_t L : fixedL) check_local(nm, true, tz, self, none, L, "manual-zone");
+    for (int k = 0; k < 40; k++) { int64_t L = LO + 2 * 86400 + (int64_t) (rng.next() % (uint64_t) (HI - LO - 4 * 86400)); check_local(nm, true, tz, self, none, L, "manual-zone"); }
   }
 }
 
@@ -119,7 +147,12 @@ template <typename ZI, typename PROC>
 static void c07_zone(const ZI* zi, bool extended, long long nrandom, Rng& rng) {
   PROC* a = new PROC(); PROC* b = new PROC();
   TimeZone tz = TimeZone::forZoneInfo(zi, a);
-  TimeZone priv = TimeZone::forZoneInfo(zi, b);
+  TimeZone privTz = TimeZone::forZoneInfo(zi, b);
+  const Oracle* ora = extended ? &ORA_X : &ORA_B;
+  const OZone* oz = ora->zones.empty() ? nullptr : ora->find(zi->name);
+  if (!ora->zones.empty() && !oz) { J j; j.str("zone", zi->name); witness(PROP + ":zone-missing-from-oracle", "zone has no oracle entry", j); delete a; delete b; return; }
+  if (oz) CNT.add("local.zones_with_zic_model");
+  Model priv = {&privTz, ora, oz};
   std::vector<Tr> trs = find_transitions(priv);
   CNT.add("local.zones"); CNT.add("local.transitions", (long long) trs.size());
   for (const Tr& t : trs) {
@@ -257,7 +290,8 @@ static void c05_db(const ZI* const* reg, uint16_t n, int shard, int nshards, lon
     others.push_back(TimeZone::forZoneInfo(reg[rng.below(n)], r));
     others.push_back(mgr.createForZoneIndex((uint16_t) rng.below(n)));
     others.push_back(TimeZone::forTimeOffset(TimeOffset::forMinutes(-570)));
-    std::vector<Tr> trs = find_transitions(plain);
+    Model plainM = {&plain, nullptr, nullptr};
+    std::vector<Tr> trs = find_transitions(plainM);
     CNT.add("conv.zones");
     std::string nm = std::string(kind) + ":" + reg[i]->name;
     for (const Tr& t : trs) for (int d = -3; d <= 3; d++) { if (t.T + d >= LO && t.T + d < HI) { c05_instant(nm.c_str(), plain, t.T + d, &others); c05_instant((nm + "(managed)").c_str(), managed, t.T + d, &others); } }
@@ -277,7 +311,7 @@ static void c05_db(const ZI* const* reg, uint16_t n, int shard, int nshards, lon
       }
     }
     // transitions of the *targets* as well
-    for (size_t oi = 0; oi < 2; oi++) { std::vector<Tr> ot = find_transitions(others[oi]); for (size_t k = 0; k < ot.size(); k += 3) for (int d = -1; d <= 1; d++) if (ot[k].T + d >= LO && ot[k].T + d < HI) c05_instant(nm.c_str(), plain, ot[k].T + d, &others); }
+    for (size_t oi = 0; oi < 2; oi++) { Model om = {&others[oi], nullptr, nullptr}; std::vector<Tr> ot = find_transitions(om); for (size_t k = 0; k < ot.size(); k += 3) for (int d = -1; d <= 1; d++) if (ot[k].T + d >= LO && ot[k].T + d < HI) c05_instant(nm.c_str(), plain, ot[k].T + d, &others); }
     delete p; delete q; delete r;
   }
 }
@@ -321,6 +355,8 @@ int main(int argc, char** argv) {
   int shard = a.shard(), nsh = a.nshards();
   Rng rng(a.num("seed", 0) * 131 + shard + 7);
   if (mode == "c07") {
+    if (a.has("oracle-basic") && !ORA_B.load(a.get("oracle-basic"))) { fprintf(stderr, "cannot load oracle file\n"); return 3; }
+    if (a.has("oracle-ext") && !ORA_X.load(a.get("oracle-ext"))) { fprintf(stderr, "cannot load oracle file\n"); return 3; }
     long long nrandom = a.num("random", 2000);
     std::string db = a.get("db", "both");
     if (shard == 0) c07_manual(rng);
